@@ -133,27 +133,29 @@ Proof. exact @q3_core_closed. Qed.
 Print Assumptions C13_topology_3quads_closed.
 
 (* ------------------------------------------------------------------ oriented manifoldness (every directed edge once,
-   faces on distinct in-range vertices) is preserved *)
-Theorem C13_topology_loop_manifold : forall (P : Type) (O : pops P) (r r' : raw P),
+   faces on distinct in-range vertices) is preserved.
+   The loop / tri6 theorems named _partial carry the guard `simple_tri` (no two triangles on the same three vertices): it is
+   NOT in the property's quantifier; without it the statement is false, see C13_loop_same_vertex_triangles_refuted. *)
+Theorem C13_topology_loop_manifold_partial : forall (P : Type) (O : pops P) (r r' : raw P),
   loop_step O r = Ok r' ->
   Forall (covered (re r)) (rf r) -> oriented_tri (nV r) (rf r) -> simple_tri (rf r) ->
   oriented_tri (nV r') (rf r').
 Proof. exact @loop_step_oriented. Qed.
-Print Assumptions C13_topology_loop_manifold.
+Print Assumptions C13_topology_loop_manifold_partial.
 
-Theorem C13_topology_loop_simple : forall (P : Type) (O : pops P) (r r' : raw P),
+Theorem C13_topology_loop_simple_partial : forall (P : Type) (O : pops P) (r r' : raw P),
   loop_step O r = Ok r' ->
   Forall (covered (re r)) (rf r) -> oriented_tri (nV r) (rf r) -> simple_tri (rf r) -> simple_tri (rf r').
 Proof. exact @loop_step_simple. Qed.
-Print Assumptions C13_topology_loop_simple.
+Print Assumptions C13_topology_loop_simple_partial.
 
 (* loop_subdivision(n) as a whole, any n, on an oriented simple triangle surface *)
-Theorem C13_topology_loop_operation : forall (P : Type) (O : pops P) (s s' : sstate) (n : Z),
+Theorem C13_topology_loop_operation_partial : forall (P : Type) (O : pops P) (s s' : sstate) (n : Z),
   sstep O s (Loop n) = Ok s' ->
   WF (cur s) -> oriented_tri (nV (cur s)) (rf (cur s)) -> simple_tri (rf (cur s)) ->
   WF (cur s') /\ oriented_tri (nV (cur s')) (rf (cur s')) /\ simple_tri (rf (cur s')).
 Proof. exact @loop_operation_manifold. Qed.
-Print Assumptions C13_topology_loop_operation.
+Print Assumptions C13_topology_loop_operation_partial.
 
 Theorem C13_topology_3quads_manifold : forall (P : Type) (O : pops P) (r r' : raw P),
   q3_core O r = Ok r' ->
@@ -175,17 +177,17 @@ Proof. exact @quad_split_oriented. Qed.
 Print Assumptions C13_topology_quad_split_manifold_partial.
 
 (* the refined edge count of loop_subdivision, hence its Euler characteristic *)
-Theorem C13_counts_loop_edges : forall (P : Type) (O : pops P) (r r' : raw P),
+Theorem C13_counts_loop_edges_partial : forall (P : Type) (O : pops P) (r r' : raw P),
   loop_step O r = Ok r' -> WF r -> oriented_tri (nV r) (rf r) -> simple_tri (rf r) -> exact_edges r ->
   nE r' = 2 * nE r + 3 * nF r.
 Proof. exact @loop_step_edge_count. Qed.
-Print Assumptions C13_counts_loop_edges.
+Print Assumptions C13_counts_loop_edges_partial.
 
-Theorem C13_euler_loop : forall (P : Type) (O : pops P) (r r' : raw P),
+Theorem C13_euler_loop_partial : forall (P : Type) (O : pops P) (r r' : raw P),
   loop_step O r = Ok r' -> WF r -> oriented_tri (nV r) (rf r) -> simple_tri (rf r) -> exact_edges r ->
   chi2 r' = chi2 r.
 Proof. exact @euler_loop_full. Qed.
-Print Assumptions C13_euler_loop.
+Print Assumptions C13_euler_loop_partial.
 
 Theorem C13_accepts_prepared_surface_exact : forall (P : Type) (V : list P) (F : list (list Z)),
   input_ok (Zlen V) F -> exact_edges (pr (prepare (mkraw V [] F []))).
@@ -257,12 +259,12 @@ Proof. exact @triangulate_oriented. Qed.
 Print Assumptions C13_topology_triangulate_manifold_partial.
 
 (* one round of subdivide_triangles_6 (3 quads, then every quad cut): the guard is discharged *)
-Theorem C13_topology_tri6_round_manifold : forall (P : Type) (O : pops P) (s s' : sstate),
+Theorem C13_topology_tri6_round_manifold_partial : forall (P : Type) (O : pops P) (s s' : sstate),
   tri6_step O s = Ok s' ->
   WF (cur s) -> oriented_tri (nV (cur s)) (rf (cur s)) -> simple_tri (rf (cur s)) ->
   oriented_tri (nV (cur s')) (rf (cur s')).
 Proof. exact @tri6_step_oriented. Qed.
-Print Assumptions C13_topology_tri6_round_manifold.
+Print Assumptions C13_topology_tri6_round_manifold_partial.
 
 (* ------------------------------------------------------------------ split_double_boundary_edges_triangles *)
 Theorem C13_split_double_selection : forall (P : Type) (r : raw P) (pb : list Z),
@@ -414,6 +416,84 @@ Theorem C13_geometry_face_centre_volume :
 Proof. exact C13_face_centre_volume. Qed.
 Print Assumptions C13_geometry_face_centre_volume.
 
+(* ================================================================== vertices of the model's output *)
+(* original vertices in place (prefix), each new vertex is the generated centre formula applied to the old positions of the
+   element it refines, at the stated index *)
+Theorem C13_vertices_split_edge : forall (P : Type) (O : pops P) (r r' : raw P) (e : Z),
+  split_edge O r e = Ok r' -> exists x p, getz (re r) e = Ok x /\ is_mid (se_mid O) r x p /\ rv r' = rv r ++ [p].
+Proof. exact @split_edge_vertices. Qed.
+Print Assumptions C13_vertices_split_edge.
+
+Theorem C13_vertices_fan : forall (P : Type) (O : pops P) (r r' : raw P) (f : Z),
+  split_face_as_fan O r f = Ok r' ->
+  exists F p, getz (rf r) f = Ok F /\ is_bary (fun ps => fan_bary O ps (Zlen F)) r F p /\ rv r' = rv r ++ [p].
+Proof. exact @fan_vertices. Qed.
+Print Assumptions C13_vertices_fan.
+
+Theorem C13_vertices_quad_split : forall (P : Type) (O : pops P) (r r' : raw P) (f A B C D : Z),
+  getz (rf r) f = Ok [A; B; C; D] -> triangulate_face O r f = Ok r' -> rv r' = rv r.
+Proof. exact @quad_split_vertices. Qed.
+Print Assumptions C13_vertices_quad_split.
+
+Theorem C13_vertices_loop : forall (P : Type) (O : pops P) (r r' : raw P),
+  loop_step O r = Ok r' -> exists ms, rv r' = rv r ++ ms /\ Forall2 (is_mid (loop_mid O) r) (re r) ms.
+Proof. exact @loop_step_vertices. Qed.
+Print Assumptions C13_vertices_loop.
+
+Theorem C13_vertices_loop_index : forall (P : Type) (O : pops P) (r r' : raw P) (k : nat) (e : Z * Z),
+  loop_step O r = Ok r' -> nth_error (re r) k = Some e ->
+  firstn (length (rv r)) (rv r') = rv r /\
+  exists p, nth_error (rv r') (length (rv r) + k) = Some p /\ is_mid (loop_mid O) r e p.
+Proof. exact @loop_step_vertex_k. Qed.
+Print Assumptions C13_vertices_loop_index.
+
+Theorem C13_vertices_3quads : forall (P : Type) (O : pops P) (r r' : raw P),
+  q3_core O r = Ok r' ->
+  exists ms bs, rv r' = rv r ++ ms ++ bs /\ Forall2 (is_mid (q3_mid O) r) (re r) ms /\ Forall2 (is_bary (q3_bary O) r) (rf r) bs.
+Proof. exact @q3_core_vertices. Qed.
+Print Assumptions C13_vertices_3quads.
+
+Theorem C13_vertices_cell_fan : forall (P : Type) (O : pops P) (r r' : raw P) (c A B C D : Z),
+  getz (rc r) c = Ok [A; B; C; D] -> split_cell_as_fan O r c = Ok r' ->
+  exists pA pB pC pD, getz (rv r) A = Ok pA /\ getz (rv r) B = Ok pB /\ getz (rv r) C = Ok pC /\ getz (rv r) D = Ok pD /\
+    rv r' = rv r ++ [cf_bary O pA pB pC pD] /\ rc r' = updz (rc r) c (cf_replace A B C D (nV r)) ++ cf_cells A B C D (nV r).
+Proof. exact @cell_fan_vertices. Qed.
+Print Assumptions C13_vertices_cell_fan.
+
+Theorem C13_vertices_face_centre : forall (P : Type) (O : pops P) (r r' : raw P) (fid A B C : Z),
+  getz (rf r) fid = Ok [A; B; C] -> split_tet_from_face_center O r fid = Ok r' ->
+  exists p, is_bary (fc_bary O) r [A; B; C] p /\ rv r' = rv r ++ [p].
+Proof. exact @face_centre_vertices. Qed.
+Print Assumptions C13_vertices_face_centre.
+
+(* total vector area / signed volume of the MODEL's output (hypotheses of the per-piece theorems discharged) *)
+Theorem C13_geometry_loop_total_area :
+  forall (F : Type) (f0 f1 : F) (fadd fmul fsub : F -> F -> F) (fopp : F -> F) (fdiv : F -> F -> F) (finv : F -> F),
+  field_theory f0 f1 fadd fmul fsub fopp fdiv finv eq -> two F f1 fadd <> f0 ->
+  forall r r' : raw (vec F),
+  loop_step (fieldO F f0 f1 fadd fopp fdiv) r = Ok r' -> WF r -> Forall (fun F0 => Zlen F0 = 3) (rf r) ->
+  Proofs_GeomM.total_area F f0 fadd fmul fsub r' = Proofs_GeomM.total_area F f0 fadd fmul fsub r.
+Proof. exact Proofs_GeomM.loop_step_total_area. Qed.
+Print Assumptions C13_geometry_loop_total_area.
+
+Theorem C13_geometry_cell_fan_total_volume :
+  forall (F : Type) (f0 f1 : F) (fadd fmul fsub : F -> F -> F) (fopp : F -> F) (fdiv : F -> F -> F) (finv : F -> F),
+  field_theory f0 f1 fadd fmul fsub fopp fdiv finv eq -> two F f1 fadd <> f0 ->
+  forall (r r' : raw (vec F)) (c A B C D : Z),
+  getz (rc r) c = Ok [A; B; C; D] -> split_cell_as_fan (fieldO F f0 f1 fadd fopp fdiv) r c = Ok r' -> WFv r ->
+  total_volume F f0 fadd fmul fsub r' = total_volume F f0 fadd fmul fsub r.
+Proof. exact cell_fan_total_volume. Qed.
+Print Assumptions C13_geometry_cell_fan_total_volume.
+
+(* split_cell_as_fan preserves conformity of the whole mesh (triangles as vertex sets) *)
+Theorem C13_topology_cell_fan_conforming : forall (P : Type) (O : pops P) (r r' : raw P) (c A B C D : Z),
+  getz (rc r) c = Ok [A; B; C; D] -> split_cell_as_fan O r c = Ok r' -> WFv r -> NoDup [A; B; C; D] ->
+  (forall t, ~ In (nV r) t -> uocc (rc r') t = uocc (rc r) t) /\
+  (forall t, In (nV r) t -> (uocc (rc r') t <= 2)%nat) /\
+  (conforming (rc r) -> conforming (rc r')).
+Proof. exact @cell_fan_conforming. Qed.
+Print Assumptions C13_topology_cell_fan_conforming.
+
 (* ================================================================== acceptance of every documented input / history *)
 Theorem C13_accepts_prepared_surface : forall (P : Type) (V : list P) (F : list (list Z)),
   input_ok (Zlen V) F -> WF (pr (prepare (mkraw V [] F []))).
@@ -473,3 +553,14 @@ Theorem C13_triangulate_nonsimple_refuted :
   end.
 Proof. exact triangulate_nonsimple_refuted. Qed.
 Print Assumptions C13_triangulate_nonsimple_refuted.
+
+(* two triangles on the same three vertices: loop_subdivision makes the surface non-manifold (E' = 9, not 12; chi 5) *)
+Theorem C13_loop_same_vertex_triangles_refuted :
+  nodupb (dedges_all w_pillow_F) = true /\
+  match run_surface QcO (input_surface w_pillow_V w_pillow_F) [Loop 1] with
+  | Ok r => nodupb (dedges_all (rf (pr (res_mesh r)))) = false /\
+            Zlen (re (pr (res_mesh r))) = 9 /\ Zlen (rv (pr (res_mesh r))) - Zlen (re (pr (res_mesh r))) + Zlen (rf (pr (res_mesh r))) = 5
+  | Err _ => False
+  end.
+Proof. exact loop_same_vertex_triangles_refuted. Qed.
+Print Assumptions C13_loop_same_vertex_triangles_refuted.
